@@ -23,12 +23,26 @@ structure Lawful (T : Topo) : Prop where
 /-- the invariant: cached answers are current, only frozen nodes hold a cache, and everything below
 a frozen node is frozen -/
 structure Inv (T : Topo) (s : FState) : Prop where
-  cache_current : ∀ k v, s.cache k = some v → v = s.version k
-  cache_only_frozen : ∀ k, s.frozen k = false → s.cache k = none
+  cache_current : ∀ k key q v, (key, (q, v)) ∈ s.cache k → q = key ∧ v = s.version k
+  cache_only_frozen : ∀ k, s.frozen k = false → s.cache k = []
   frozen_down : ∀ k d, s.frozen k = true → d ∈ T.sub k → s.frozen d = true
 
 theorem inv_init (T : Topo) : Inv T FState.init :=
-  ⟨by intro k v h; simp [FState.init] at h, by intro k _; rfl, by intro k d h; simp [FState.init] at h⟩
+  ⟨by intro k key q v h; simp [FState.init] at h, by intro k _; rfl, by intro k d h; simp [FState.init] at h⟩
+
+/-- what a dictionary look-up returns is an entry stored under an equal key -/
+theorem lookup_some_mem (c : FCache) (q : Nat) (r : Nat × Nat) (h : c.lookup q = some r) : (q, r) ∈ c := by
+  unfold FCache.lookup at h
+  cases hf : c.find? (·.1 == q) with
+  | none => simp [hf] at h
+  | some e =>
+    simp only [hf, Option.map_some, Option.some.injEq] at h
+    have hm := List.mem_of_find?_eq_some hf
+    have hk := List.find?_some hf
+    simp only [beq_iff_eq] at hk
+    obtain ⟨a, b⟩ := e
+    simp only at hk h
+    subst hk; subst h; exact hm
 
 /-- is the operation one the theorem covers? every `unfreeze` must be *safe* in the current state
 (in a tree: no frozen ancestor) -/
@@ -39,19 +53,23 @@ def opOk (T : Topo) (s : FState) : FOp → Prop
 theorem step_preserves (T : Topo) (hT : Lawful T) (s : FState) (op : FOp) (h : Inv T s)
     (hop : opOk T s op) : Inv T (fstep T s op).1 := by
   cases op with
-  | query n =>
+  | query n q =>
     unfold fstep
     by_cases hf : s.frozen n = true
     · simp only [hf, if_true]
-      cases hc : s.cache n with
-      | some v => exact h
+      cases hc : (s.cache n).lookup q with
+      | some r => obtain ⟨q', v⟩ := r; exact h
       | none =>
         refine ⟨?_, ?_, h.frozen_down⟩
-        · intro k v hk
+        · intro k key q' v hk
           simp only at hk
           by_cases hkn : k = n
-          · subst hkn; simp at hk; exact hk.symm
-          · simp [hkn] at hk; exact h.cache_current k v hk
+          · subst hkn
+            simp only [if_true, List.mem_append, List.mem_singleton, Prod.mk.injEq] at hk
+            rcases hk with hk | ⟨rfl, rfl, rfl⟩
+            · exact h.cache_current k key q' v hk
+            · exact ⟨rfl, rfl⟩
+          · simp only [hkn, if_false] at hk; exact h.cache_current k key q' v hk
         · intro k hk
           simp only
           by_cases hkn : k = n
@@ -77,11 +95,11 @@ theorem step_preserves (T : Topo) (hT : Lawful T) (s : FState) (op : FOp) (h : I
     simp only [opOk, unfreezeSafe, List.all_eq_true, Bool.or_eq_true, decide_eq_true_eq,
       Bool.not_eq_true'] at hop
     refine ⟨?_, ?_, ?_⟩
-    · intro k v hk
+    · intro k key q v hk
       simp only [fstep] at hk ⊢
       by_cases hm : k ∈ T.sub n
       · simp [hm] at hk
-      · simp [hm] at hk; exact h.cache_current k v hk
+      · simp [hm] at hk; exact h.cache_current k key q v hk
     · intro k hk
       simp only [fstep] at hk ⊢
       by_cases hm : k ∈ T.sub n
@@ -108,9 +126,9 @@ theorem step_preserves (T : Topo) (hT : Lawful T) (s : FState) (op : FOp) (h : I
     · have hf' : s.frozen n = false := by simpa using hf
       simp only [hf', Bool.false_eq_true, if_false]
       refine ⟨?_, h.cache_only_frozen, h.frozen_down⟩
-      intro k v hk
+      intro k key q v hk
       simp only at hk ⊢
-      have hv := h.cache_current k v hk
+      have hv := h.cache_current k key q v hk
       have hnot : ¬ (k = n ∨ k ∈ T.anc n) := by
         rintro (rfl | hka)
         · rw [h.cache_only_frozen k hf'] at hk; cases hk
@@ -124,15 +142,32 @@ theorem step_preserves (T : Topo) (hT : Lawful T) (s : FState) (op : FOp) (h : I
   | failing n => exact h
 
 /-- **A query is answered from the current composition** whenever the invariant holds: the answer
-is the same whether or not the node is frozen, cached or not. -/
-theorem query_fresh (T : Topo) (s : FState) (n : Nat) (h : Inv T s) :
-    (fstep T s (.query n)).2 = .answered (s.version n) := by
+is the one of the very function and arguments asked for (`q`), computed from the current version — the
+same whether or not the node is frozen, cached or not, and whatever other functions / arguments were
+asked before (their entries never serve this one). -/
+theorem query_fresh (T : Topo) (s : FState) (n q : Nat) (h : Inv T s) :
+    (fstep T s (.query n q)).2 = .answered q (s.version n) := by
   unfold fstep
   by_cases hf : s.frozen n = true
   · simp only [hf, if_true]
-    cases hc : s.cache n with
-    | some v => simp [h.cache_current n v hc]
+    cases hc : (s.cache n).lookup q with
+    | some r =>
+      obtain ⟨q', v⟩ := r
+      have := h.cache_current n q q' v (lookup_some_mem _ _ _ hc)
+      simp [this.1, this.2]
     | none => rfl
+  · simp [hf]
+
+/-- a query never changes what any *other* function / argument key will be answered with, nor the
+composition (queries are observations) -/
+theorem query_keeps_versions (T : Topo) (s : FState) (n q : Nat) :
+    (fstep T s (.query n q)).1.version = s.version ∧ (fstep T s (.query n q)).1.frozen = s.frozen := by
+  unfold fstep
+  by_cases hf : s.frozen n = true
+  · simp only [hf, if_true]
+    cases hc : (s.cache n).lookup q with
+    | some r => obtain ⟨q', v⟩ := r; exact ⟨rfl, rfl⟩
+    | none => exact ⟨rfl, rfl⟩
   · simp [hf]
 
 /-- all operations of a history are covered (each unfreeze safe when it happens) -/
@@ -150,11 +185,11 @@ theorem history_preserves (T : Topo) (hT : Lawful T) : ∀ (ops : List FOp) (s :
 /-- **History independence.** After any covered history (any interleaving of queries, freezes,
 safe unfreezes, modifications — accepted or rejected — and failing calls, on any number of live
 models) every query is answered from the current composition. -/
-theorem history_independent (T : Topo) (hT : Lawful T) (ops : List FOp) (n : Nat)
+theorem history_independent (T : Topo) (hT : Lawful T) (ops : List FOp) (n q : Nat)
     (hok : historyOk T FState.init ops) :
-    (fstep T (frun T FState.init ops).1 (.query n)).2 =
-      .answered ((frun T FState.init ops).1.version n) :=
-  query_fresh T _ n (history_preserves T hT ops _ (inv_init T) hok)
+    (fstep T (frun T FState.init ops).1 (.query n q)).2 =
+      .answered q ((frun T FState.init ops).1.version n) :=
+  query_fresh T _ n q (history_preserves T hT ops _ (inv_init T) hok)
 
 /-- **A frozen model rejects assignment** and is left unchanged. -/
 theorem frozen_rejects (T : Topo) (s : FState) (n : Nat) (h : s.frozen n = true) :
@@ -211,16 +246,19 @@ theorem chain_lawful : Lawful chain := by
       · simp [h0, h1] at h
 
 theorem stale_after_child_unfreeze_refuted :
-    (frun chain FState.init [.freeze 0, .query 0, .unfreeze 1, .modify 1, .query 0]).2 =
-      [.done, .answered 0, .done, .done, .answered 0] ∧
-    (frun chain FState.init [.freeze 0, .query 0, .unfreeze 1, .modify 1, .query 0]).1.version 0 = 1 := by
+    (frun chain FState.init [.freeze 0, .query 0 7, .unfreeze 1, .modify 1, .query 0 7]).2 =
+      [.done, .answered 7 0, .done, .done, .answered 7 0] ∧
+    (frun chain FState.init [.freeze 0, .query 0 7, .unfreeze 1, .modify 1, .query 0 7]).1.version 0 = 1 := by
   decide
 
 /-- non-vacuity: the same history with the unfreeze applied to the parent is covered and fresh -/
-example : historyOk chain FState.init [.freeze 0, .query 0, .unfreeze 0, .modify 1, .query 0] := by
-  simp [historyOk, opOk, unfreezeSafe, fstep, chain, FState.init]
-example : (frun chain FState.init [.freeze 0, .query 0, .unfreeze 0, .modify 1, .query 0]).2 =
-    [.done, .answered 0, .done, .done, .answered 1] := by decide
+example : historyOk chain FState.init [.freeze 0, .query 0 7, .unfreeze 0, .modify 1, .query 0 7] := by
+  simp [historyOk, opOk, unfreezeSafe, fstep, chain, FState.init, FCache.lookup]
+example : (frun chain FState.init [.freeze 0, .query 0 7, .unfreeze 0, .modify 1, .query 0 7]).2 =
+    [.done, .answered 7 0, .done, .done, .answered 7 1] := by decide
+/-- entries of different functions / arguments on one frozen node do not serve each other -/
+example : (frun chain FState.init [.freeze 0, .query 0 7, .query 0 8, .query 0 7, .query 1 8]).2 =
+    [.done, .answered 7 0, .answered 8 0, .answered 7 0, .answered 8 0] := by decide
 example : (frun chain FState.init [.freeze 0, .modify 1]).2 = [.done, .rejected] := by decide
 
 end AF.C13
